@@ -156,13 +156,19 @@ def run_sequences(ctx, nseq):
     cases, exps = [], []
     dist = {}
     for i in range(nseq):
-        c, e = G.gen_sequence(rng, maxlen=8, malformed=(i % 5 == 4))
+        if i % 25 == 7:
+            c, e = G.gen_directed_sum_index(rng)
+        else:
+            c, e = G.gen_sequence(rng, maxlen=8, malformed=(i % 5 == 4))
         if c['ops']:
             cases.append(c)
             exps.append(e)
     results = []
     for ch in chunked(cases, 250):
-        results += ctx.impl.run(DRIVER, {'seqs': ch})['seqs']
+        r_ = NUM.safe_run(ctx, 'seqs', ch)
+        if r_ is None:
+            return
+        results += r_
     coq_cases = []     # (text triple, replay)
     nfail = 0
     skipped_inexact = 0
@@ -257,10 +263,66 @@ def run(ctx):
     return ctx.finish()
 
 
+def replay(ctx, data):
+    """Re-run the recorded input on the current implementation; the violation is reported again
+    iff the implementation still behaves as recorded."""
+    rp = data['replay']
+    if 'ops' in rp:
+        steps = ctx.impl.run(DRIVER, {'seqs': [{'init': rp['init'], 'ops': rp['ops']}]})['seqs'][0]
+        now = steps[rp.get('failing_step', len(steps) - 1)]
+    elif 'mode' in rp:
+        now = ctx.impl.run(DRIVER, {rp['mode']: [rp['case']]})[rp['mode']][0]
+    elif 'I' in rp and 'shape' in rp:
+        now = ctx.impl.run(DRIVER, {'idx': [{'shape': rp['shape'], 'I': rp['I']}]})['idx'][0]
+    elif 'o' in rp and 'X' in rp:
+        now = ctx.impl.run(DRIVER, {'gen': [{'X': rp['X'], 'o': rp['o'], 'multi': rp.get('multientryfunc', False)}]})['gen'][0]
+    elif 'case' in rp:
+        c = rp['case']
+        mode = 'num' if c.get('k') in ('norm', 'orth', 'hosvd', 'compress', 'trunc_rank', 'aca', 'aca_lr', 'aca3d', 'als1',
+                                       'als', 'grou', 'gta') else ('upd' if c.get('k') in ('r1', 'r3') else 'cop')
+        now = ctx.impl.run(DRIVER, {mode: [c]})[mode][0]
+    else:
+        log('[C18] replay file has no recognised input')
+        return ctx.finish()
+    old = rp.get('impl') or {}
+    keys = [k for k in ('status', 'dense', 'result', 'value', 'X', 'terms', 'ranges', 'singleton', 'errors', 'shape', 'norm')
+            if k in old]
+    same = bool(keys) and all(old.get(k) == now.get(k) for k in keys)
+    log('[C18] replay: recorded %s ; now %s' % ({k: old.get(k) for k in ('status', 'msg')}, {k: now.get(k) for k in ('status', 'msg')}))
+    ctx.count(('replay', repr(rp)[:200]))
+    if same:
+        ctx.report(data['signature'], 'reproduced: ' + data['what'], dict(rp, impl_now=now))
+    return ctx.finish()
+
+
 META = {
-    'technique': 'Rocq proofs over an arbitrary commutative ring that every format operation commutes with expansion '
-                 '(entry-wise homomorphism theorems) + exact step-wise correspondence of the implementation structures '
-                 'with the model at R=Z + dense-array oracle on the implementation',
-    'level_text': 'see evidence',
-    'level_note': 'see evidence',
+    'technique': 'Rocq proofs over an arbitrary commutative ring that the format operations commute with expansion '
+                 '(entry-wise homomorphism theorems, index-normalisation theorems, cross-step exactness) + exact step-wise '
+                 'correspondence of the implementation\'s structures with the model at R=Z + dense-array oracle on the '
+                 'implementation + bounded float checks of the approximation algorithms',
+    'level_text': 'Theorems (Coq, unbounded, any commutative ring with Leibniz equality): asarray commutes with +, unary -, '
+                  'row selection and n-way mode products of canonical tensors (canon_add, canon_neg, canon_getitem_rows, '
+                  'canon_nway), with -, +, binary -, mode products of Tucker tensors and with join_tucker_bases '
+                  '(tucker_neg, tucker_nway, join_bases_spec_first/second, tucker_add, tucker_sub), canonical->Tucker '
+                  'conversion is exact (canon_to_tucker); CanonicalOperator transpose/add/neg/composition/Kronecker '
+                  'extension/application agree entry-wise with the expanded matrix (canop_*); _normalize_indices selects '
+                  'only existing positions for every int/slice/list expression, pads missing axes, rejects too many '
+                  '(int_index_*, slice_*, normalize_indices_*); rank_1_update and one aca cross step annihilate the '
+                  'residual on the pivot row and column (aca_step_exact_on_cross_*); exact rank 1 is reproduced by one '
+                  'cross (aca_rank_reduction_partial). Not proved, tie only: squeeze, Tucker->canonical, the apply_tprod '
+                  'loop, generator ravel order, pad, operator slice, truncation bound, greedy monotonicity, rank-r '
+                  'Wedderburn. Tie: each step of ~450 (thorough 2500) random operation sequences (length <= 8, orders 1-4, '
+                  'singleton axes, rank 0, mixed formats, malformed stream) is replayed by the model at R=Z on the '
+                  'structures the implementation produced: factor matrices, cores, scalars and error classes compared '
+                  'exactly; likewise _normalize_indices, TensorGenerator accesses, CanonicalOperator algebra and the '
+                  'Cython updates; every result is also compared with a dense numpy oracle. Float part: norm, '
+                  'orthogonalize, hosvd, compress/find_truncation_rank over 11 decades of tol and rtol, aca/aca_lr/aca_3d '
+                  'on exact rank-r integer arrays, als1, grou, gta histories, with stated derived bounds.',
+    'level_note': 'Trusted: Coq kernel + vm_compute; the hand transcription of tensor.py/lowrank.py/lowrank_cy.pyx into '
+                  'Gallina with numpy primitives (hstack, pad, take, dot, tensordot, fill of the diagonal) modelled by their '
+                  'entry-wise meaning, validated by the exact correspondence run; harness generators and the dense oracle; '
+                  'real arithmetic for binary64 (entries are small integers in the exact tie; float results bounded). '
+                  'Not modelled: SVD/QR (LAPACK; orthonormality and reconstruction checked), als1/als iterations, '
+                  'scipy.sparse. The reference semantics of an index expression is per-axis (orthogonal) selection, as implemented by '
+                  '_normalize_indices; it differs from numpy fancy indexing when several lists/ints are mixed.',
 }
